@@ -87,6 +87,10 @@ def gen_case(rng, index, tier):
         case['iopt'] = rng.choice([['-f', '-i'], ['-fi'], ['-f', '--interactive'],
                                    ['-i', '-f', '-i']])
     if mode == 'dry' and rng.random() < 0.3:
+        # a dry run that is ALSO interactive and answered yes: still a dry run
+        case['dry_interactive'] = rng.choice([['-i'], ['--interactive'], ['-i', '-v']])
+        case['reply'] = rng.choice(POS)
+    elif mode == 'dry' and rng.random() < 0.3:
         # a terminal / locale that cannot show every name: whatever a dry run
         # then prints (or refuses to print), it removes nothing
         case['stdout_encoding'] = rng.choice(['ascii', 'ascii', 'latin-1'])
@@ -124,7 +128,11 @@ def run_case(case):
     with world.World(case) as w:
         s0 = w.snapshot()
         args = base_args(case, w)
-        if mode == 'dry':
+        if mode == 'dry' and case.get('dry_interactive'):
+            obs['interactive_dry_runs'] = 1
+            r = run.run(w, 'empty', args + ['--dry-run'] + case['dry_interactive'],
+                        stdin=(case['reply'] + '\n').encode('utf-8'))
+        elif mode == 'dry':
             r = run.run(w, 'empty', args + ['--dry-run'], stdin=b'',
                         plan={'stdout_encoding': case['stdout_encoding']}
                         if case.get('stdout_encoding') else None)
@@ -158,6 +166,12 @@ def run_case(case):
             if changed:
                 viol('dry-run-changed-something',
                      diff=snap.fmt_diff(changed, 6))
+            if case.get('dry_interactive'):
+                # (what is announced after the question is not compared: the
+                # prompt shares the stream; the frame is what matters here)
+                out['nontrivial'] = True
+                out['verdict'] = 'violation' if out['violations'] else 'ok'
+                return out
             printed = set()
             narrow = case.get('stdout_encoding')
             if narrow:
